@@ -129,18 +129,6 @@ func partPath(prefix string, streamID string, partID uint64) string {
 	return prefix + "_" + streamID + "_part" + strconv.FormatUint(partID, 10) + ".mp4"
 }
 
-func fmp4TimeScale(c codecs.Codec) uint32 {
-	switch codec := c.(type) {
-	case *codecs.MPEG4Audio:
-		return uint32(codec.SampleRate)
-
-	case *codecs.Opus:
-		return 48000
-	}
-
-	return 90000
-}
-
 type switchableWriter struct {
 	w io.Writer
 }
